@@ -5,6 +5,7 @@
 -/
 import Driver.Common
 import Driver.Wire
+import Driver.Registry
 import Driver.Plan
 import Driver.Batch
 import Driver.Middleware
@@ -14,6 +15,7 @@ open Driver
 /-- the handler chain: add one line per driver module. -/
 def handlers : List (String → String → Option String) := [
   handleWire,
+  handleRegistry,
   handlePlan,
   handleBatch,
   handleMiddleware,
